@@ -421,3 +421,98 @@ class ArithWide(ArithOptimal):
         for k in ('meta', 'inaccuracy_propagates', 'config_inherited', 'operands_unchanged', 'separate_state'):
             out.pop(k, None)
         return out
+
+
+# ==========================================================================================================
+def best_format_of_constant(c):
+    """(signed=True, n_int, n_frac) of Fxp(c) for a dyadic constant c: fewest fraction bits, then fewest integer bits"""
+    c = Fraction(c)
+    f = 0
+    while (c * (1 << f)).denominator != 1:
+        f += 1
+    i = 0
+    while not (-(1 << i) <= c < (1 << i)):
+        i += 1
+    return True, i, f
+
+
+@contract
+class ArithConst(Contract):
+    """x op c and c op x for a plain number c: c is first converted to a fixed-point constant according to
+    config.op_input_size ('same': quantized into x's format under x's modes; 'best': its own minimal format),
+    then the result is the exact result quantized into the format of the FIRST operand (const_op_sizing = 'same')
+    under the configuration of the first operand."""
+    name = 'objects:Fxp.__add__/__sub__/__mul__[constant operand]'
+    layer = 5
+    uses = LOWER
+    props = {'*': ['C08'], 'in_range': ['C02']}
+
+    CONSTS = [1.5, -0.75, 2, 0.125, 3, -1, 100.0, 0]
+
+    def configs(self, tier):
+        fm = [(True, 8, 4), (False, 8, 3), (True, 3, 0), (True, 12, 6), (False, 2, 1)] if tier == 'quick' else imposed_formats('quick')
+        k = 0
+        for x in fm:
+            for ci in range(len(self.CONSTS)):
+                for op in ('add', 'sub', 'mul', 'rsub', 'radd', 'rmul'):
+                    for size in ('same', 'best'):
+                        for method in ('raw', 'repr'):
+                            k += 1
+                            rule, mode = MODES[k % len(MODES)]
+                            yield dict(x=list(x), ci=ci, op=op, size=size, method=method, rule=rule, mode=mode)
+
+    def inputs(self, cfg, D):
+        s, n, f = cfg['x']
+        return {'cx': codes_in(D, 'cx', 1, s, n)}
+
+    def run(self, cfg, P, inp):
+        s, n, f = cfg['x']
+        c = self.CONSTS[cfg['ci']]
+        x = make_fxp(P, s, n, f, codes=inp['cx'], shape=(), vdtype=float,
+                     cfg={'rounding': cfg['rule'], 'overflow': cfg['mode'], 'op_input_size': cfg['size'], 'op_method': cfg['method']})
+        op = cfg['op']
+        if op == 'add': z = x + c
+        elif op == 'sub': z = x - c
+        elif op == 'mul': z = x * c
+        elif op == 'rsub': z = c - x
+        elif op == 'radd': z = c + x
+        else: z = c * x
+        return obs_fxp(z)
+
+    def post(self, cfg, inp, obs):
+        if obs['exc']:
+            return {}
+        s, n, f = cfg['x']
+        c = Fraction(self.CONSTS[cfg['ci']])
+        n_int_x = n - f - int(s)
+        cx = M(inp['cx'][0])
+        vx = scale2(cx, -f)
+        if cfg['size'] == 'same':
+            # constant quantized into x's format under x's modes
+            cc = Q(c, s, n, f, cfg['rule'], cfg['mode'])
+            vc = scale2(cc, -f)
+            cs, ci_, cf = s, n_int_x, f
+            crule, cmode = cfg['rule'], cfg['mode']
+        else:
+            cs, ci_, cf = best_format_of_constant(c)
+            vc = c
+            crule, cmode = 'trunc', 'saturate'       # a fresh Fxp(c) carries the default configuration
+        first_is_const = cfg['op'] == 'rsub'
+        S = s or cs
+        if first_is_const:
+            NI, NF, rule, mode = ci_, cf, crule, cmode
+        else:
+            NI, NF, rule, mode = n_int_x, f, cfg['rule'], cfg['mode']
+        W = int(S) + NI + NF
+        base = {'add': vx + vc, 'radd': vx + vc, 'sub': vx - vc, 'rsub': vc - vx, 'mul': vx * vc, 'rmul': vx * vc}[cfg['op']]
+        lo, hi = range_of(S, W)
+        out = {'format': And(obs['signed'] == S, obs['n_word'] == W, obs['n_frac'] == NF, obs['dtype'] == fmt_str(S, W, NF)),
+               'governing_config': And(obs['rounding'] == rule, obs['overflow'] == mode)}
+        cz = M(elems(obs['val'])[0])
+        R = ROUND(scale2(base, NF), rule)
+        out['code_eq_Q'] = eq(cz, OVF(R, S, W, mode))
+        out['in_range'] = And(cz >= lo, cz <= hi)
+        st = obs['status']
+        out['flag_overflow'] = Iff(B(st['overflow']), R > hi)
+        out['flag_underflow'] = Iff(B(st['underflow']), R < lo)
+        return out
